@@ -325,10 +325,12 @@ class McmcSim:
     def hr_reference(self, rec):
         op = rec.op
         k = op_kind(op)
-        ids = [p.id for par in op.parameters for p in (par.parameters() if hasattr(par, "parameters") else [par])]
+        from checks.c11 import base_ids_of
+
+        ids = [i for par in op.parameters for i in base_ids_of(par)]
         try:
             if k == "ScalerOperator":
-                if any(type(par).__name__ != "Parameter" for par in op.parameters):
+                if any(type(par).__name__ == "TransformedParameter" for par in op.parameters):
                     return self._scaler_derived(rec, op)
                 return refprop.scaler(ids, rec.tuning_before, rec.s, rec.s2)
             if k == "SlidingWindowOperator":
@@ -893,7 +895,7 @@ CLI_SCENES = [
 
 def scene_class(r):
     if r["kind"] == "toy_mcmc":
-        return "toy:" + "+".join(r["operators"]) + (":T" if r.get("transformed_op") else "") + (":M" if r.get("matrix_op") else "") + (":wall" if r.get("faulty") else "")
+        return "toy:" + "+".join(r["operators"]) + (":T" if r.get("transformed_op") else "") + (":V" if r.get("view_op") else "") + (":wall" if r.get("faulty") else "")
     return "cli:%s:%s" % (r["sub"], " ".join(a for a in r["args"] if not a.startswith("/")))
 
 
@@ -909,7 +911,7 @@ def generate(seed, index, tier):
                   "window": k.choice([None, 3, 10]), "disable_adaptation": k.bernoulli(0.12), "tune_scale": k.loguniform(0.03, 30.0) if k.bernoulli(0.6) else None,
                   "target_acc": k.choice([None, None, 0.1, 0.5, 0.9]), "mass_freq": k.choice([2, 4]), "mass_swap": k.choice([0, 0, 5]), "use_acceptance_rate": k.bernoulli(0.2),
                   "leap_steps": k.randint(1, 5), "dim": k.choice([1, 2, 3, 5]), "transformed_op": k.bernoulli(0.1),
-                  "adapt_start": k.choice([None, None, 5, 20]), "adapt_end": k.choice([None, None, None, 40])}
+                  "adapt_start": k.choice([None, None, 5, 20]), "adapt_end": k.choice([None, None, None, 40]), "view_op": k.bernoulli(0.12)}
         if k.bernoulli(0.25):
             recipe["faulty"] = {"watch": k.choice(["x", "z"]), "index": 0, "lo": k.uniform(-2.0, -0.2), "hi": k.uniform(0.8, 3.0), "value": k.choice(["-inf", "-inf", "nan", "+inf"])}
         transitions = k.randint(20, 120)
